@@ -158,7 +158,10 @@ impl Workspace {
         let checkpoint_id = Uuid::new_v4().to_string();
         let label = label.into();
         let created_at_ms = next_created_at_ms();
-        let checkpoint_root = self.checkpoints_dir.join(session_id).join(&checkpoint_id);
+        let checkpoint_root = self
+            .checkpoints_dir
+            .join(store_component(session_id)?)
+            .join(&checkpoint_id);
         let files_root = checkpoint_root.join("files");
 
         // Validate every requested path and resolve it against the workspace root before the
@@ -217,7 +220,7 @@ impl Workspace {
     }
 
     pub fn list_checkpoints(&self, session_id: &str) -> io::Result<Vec<Checkpoint>> {
-        let session_dir = self.checkpoints_dir.join(session_id);
+        let session_dir = self.checkpoints_dir.join(store_component(session_id)?);
         if !session_dir.exists() {
             return Ok(Vec::new());
         }
@@ -241,11 +244,20 @@ impl Workspace {
     }
 
     pub fn rewind_to_checkpoint(&self, session_id: &str, checkpoint_id: &str) -> io::Result<()> {
-        let checkpoint_root = self.checkpoints_dir.join(session_id).join(checkpoint_id);
+        let checkpoint_root = self
+            .checkpoints_dir
+            .join(store_component(session_id)?)
+            .join(store_component(checkpoint_id)?);
         let metadata_path = checkpoint_root.join("checkpoint.json");
         let payload = fs::read(&metadata_path)?;
         let checkpoint: Checkpoint = serde_json::from_slice(&payload)
             .map_err(|err| io::Error::new(io::ErrorKind::InvalidData, err))?;
+
+        // The recorded paths come back from a file inside the workspace (which the file tools
+        // can write): they are path strings like any other and must stay below the root.
+        for file in &checkpoint.files {
+            self.safe_join(Path::new(&file.path))?;
+        }
 
         let mut undo = BTreeMap::new();
 
@@ -359,6 +371,19 @@ impl Workspace {
             }
         }
         Ok(())
+    }
+}
+
+/// A session or checkpoint id names one directory of the checkpoint store: a single normal path
+/// component (no separator, not `.` or `..`, not absolute).
+fn store_component(id: &str) -> io::Result<&str> {
+    let mut components = Path::new(id).components();
+    match (components.next(), components.next()) {
+        (Some(Component::Normal(name)), None) if name == std::ffi::OsStr::new(id) => Ok(id),
+        _ => Err(io::Error::new(
+            io::ErrorKind::InvalidInput,
+            "invalid checkpoint store id",
+        )),
     }
 }
 
